@@ -250,8 +250,11 @@ def summ_u256_idiv_u128(I, st, args, fid):
     return I.mk(st, 'u128', R, 0, None)
 
 
-def u_summaries():
-    return {'fpdec_core::u128_mul_u128': summ_u128_mul_u128, 'fpdec_core::u256_idiv_u128': summ_u256_idiv_u128}
+def u_summaries(db=None):
+    from . import roles
+    from .harness import get_db
+    db = db or get_db()
+    return {roles.resolve(db, 'MUL'): summ_u128_mul_u128, roles.resolve(db, 'DIV'): summ_u256_idiv_u128}
 
 
 def summ_wide_rounded(kind):
